@@ -402,6 +402,17 @@ fn run_op(c: &mut Ctx, op: &Value) -> Value {
                 "remove_segment" => s.remove_segment(Segment::new(c.node(&op["start"]), c.node(&op["end"])), c.veh(&op["vehicle"])).map(|s| (s, Value::Null)),
                 "fit_reassign" => s.fit_reassign(Segment::new(c.node(&op["start"]), c.node(&op["end"])), c.veh(&op["provider"]), c.veh(&op["receiver"])).map(|s| (s, Value::Null)),
                 "override_reassign" => s.override_reassign(Segment::new(c.node(&op["start"]), c.node(&op["end"])), c.veh(&op["provider"]), c.veh(&op["receiver"])).map(|(s, d)| (s, json!(d.map(|d| d.to_string())))),
+                "swap_path_exchange" | "swap_spawn_maint" | "swap_hitch" | "swap_remove_single" => {
+                    use solver::local_search::neighborhood::swaps as sw;
+                    use solver::local_search::neighborhood::swaps::Swap;
+                    let r = match what {
+                        "swap_path_exchange" => sw::verif_path_exchange(Segment::new(c.node(&op["start"]), c.node(&op["end"])), c.veh(&op["provider"]), c.veh(&op["receiver"])).apply(&s),
+                        "swap_spawn_maint" => sw::verif_spawn_vehicle_for_maintenance(c.node(&op["node"]), c.veh(&op["vehicle"])).apply(&s),
+                        "swap_hitch" => sw::verif_add_trip_for_hitch_hiking(c.node(&op["node"]), c.veh(&op["vehicle"])).apply(&s),
+                        _ => sw::verif_remove_single_node(c.node(&op["node"]), c.veh(&op["vehicle"])).apply(&s),
+                    };
+                    r.map(|s| (s, Value::Null))
+                }
                 "improve_depots" => Ok((s.improve_depots(None), Value::Null)),
                 "reassign_end_depots_greedily" => s.reassign_end_depots_greedily().map(|s| (s, Value::Null)),
                 "reassign_end_depots_consistent_with_transitions" => Ok((s.reassign_end_depots_consistent_with_transitions(), Value::Null)),
